@@ -20,9 +20,9 @@ use std::sync::Arc;
 pub const LOG_MIN: usize = 256;
 pub const LOG_CAP: usize = 1024;
 /// largest single request a metered thread is allowed to make (bytes)
-pub const HARD_SINGLE: u64 = 1 << 30;
+pub const HARD_SINGLE: u64 = 1 << 29;
 /// largest total a metered thread is allowed to request (bytes)
-pub const HARD_TOTAL: u64 = 1 << 31;
+pub const HARD_TOTAL: u64 = 1 << 30;
 
 /// Published by a metered thread for its watchdog.
 #[derive(Default)]
@@ -31,6 +31,8 @@ pub struct Shared {
     pub runaway_request: AtomicU64,
     /// total requested so far when the guard tripped
     pub runaway_total: AtomicU64,
+    /// what the metered thread is doing (set by the engine before each guarded operation)
+    pub current_op: std::sync::Mutex<String>,
 }
 
 struct State {
